@@ -4,6 +4,7 @@ Decides: no NUL-scanning or unguarded look-ahead on the bounded receive buffer; 
 reservations; every parser exception is converted into a response; scan loops cannot spin at end of input; signed
 differences are not used as unsigned counts without an ordering check.  Termination time, arithmetic UB inside value
 conversions and server liveness are not decided."""
+import re
 from .. import cfg, lib, facts
 from ..facts import AnalysisBroken, strip_tmpl
 
@@ -82,6 +83,21 @@ def run(ck):
         # growth lies on one side of the limit test only (which side is the fitting one is decided by C14-R1)
         ok = bool(grow) and bool(tests) and all(any(cfg.edge_dominates(f, b.id, k_, g) for b in tests for k_ in (0, 1) if b.succs[k_] is not None) for g in grow)
         ck.ob("C03-R3", "ArrayStreamBuf::feed/limit-before-growth", ok, f.loc, f, "growth only past the maxSize check (details: C14-R1)")
+        # the quantity the limit test measures (the vector's size, or a fill counter) is also where the readable area ends: a get area
+        # that ends behind the bytes fed for this message lets the parser read what an earlier message left in the storage
+        for b in tests[:1]:
+            refs_ = [strip_tmpl(r) for r in lib.term_refs(f, b.term)]
+            flds_ = [r[2:].rsplit("::", 1)[1] for r in refs_ if r.startswith("f:") and not r.endswith("::maxSize")]
+            by_size = any(r.startswith("c:std::vector") and r.endswith("::size") for r in refs_) and "bytes" in flds_
+            q_ = "bytes.size()" if by_size else ((flds_ or [None])[0])
+            sg = [e for e in f.events("call") if (e.get("callee") or "").endswith("::setg") and len(e.get("args") or []) == 3]
+            norm_ = lambda t_: re.sub(r"\s+|this->", "", t_ or "")
+            if q_ and sg:
+                bad_ = [e for e in sg if q_ not in norm_(e["args"][2].get("t"))]
+                ck.ob("C03-R3", "ArrayStreamBuf::feed/readable-area-ends-at-the-measured-fill", not bad_, (bad_[0].loc if bad_ else sg[0].loc), f,
+                      "limit test and setg() agree on `%s`" % q_ if not bad_ else
+                      "the size limit is measured on `%s` but the get area is made to end at `%s`: bytes beyond what was fed for this message "
+                      "(left in the storage by an earlier one) are handed to the parser as if they had arrived" % (q_, bad_[0]["args"][2].get("t")))
     BODY = H + "Message::body_"
     nres = 0
     for f in prog.funcs.values():
